@@ -2,7 +2,7 @@ from __future__ import annotations
 
 from collections import deque
 
-from dask.core import istask, subs
+from dask.core import istask
 
 
 def head(task):
@@ -187,10 +187,22 @@ class RewriteRule:
         self.vars = tuple(sorted(set(self._varlist)))
 
     def _apply(self, sub_dict):
-        term = self.rhs
-        for key, val in sub_dict.items():
-            term = subs(term, key, val)
-        return term
+        # All variables are replaced at once: substituting them one after the
+        # other would substitute again inside a bound value that happens to
+        # equal the name of another variable.
+        def walk(term):
+            if istask(term):
+                return term[:1] + tuple(walk(arg) for arg in term[1:])
+            if type(term) is list:
+                return [walk(arg) for arg in term]
+            try:
+                if term in sub_dict:
+                    return sub_dict[term]
+            except TypeError:  # not hashable
+                pass
+            return term
+
+        return walk(self.rhs)
 
     def __str__(self):
         return f"RewriteRule({self.lhs}, {self.rhs}, {self.vars})"
